@@ -564,3 +564,181 @@ const e2eRule = "real dcat / dgrep --plain (even-numbered lines, optionally --be
 func TestC02E2E(t *testing.T) {
 	lib.Run(t, lib.Spec[e2eCase]{Prop: "C02", Check: "e2e", Rule: e2eRule, Gen: genE2E, Eval: evalE2E})
 }
+
+// ---- layer "handler": the server handler in-process, harness as client ------------------------------
+
+type hCase struct {
+	Grep    bool
+	Files   []fileSpec
+	Shape   string // glob | list | repeat
+	Cats    int
+	ReadBuf int
+	// GapUs: pause between two commands written by the harness (client side pacing of the command loop)
+	GapUs int
+	// Pauses: the harness (as the client) pauses Ms before its Read number AtRead (negative: counted from the expected last message)
+	Pauses []hPause
+	Clean  bool
+	Sched  []string
+}
+
+type hPause struct {
+	AtMsg int // pause before taking message number AtMsg (negative: that many messages before the expected end)
+	Ms    int
+}
+
+var hLineCounts = []int{0, 1, 2, 50, 99, 100, 101, 150, 199, 200, 201, 202, 250, 400}
+
+func genH(t *rapid.T) hCase {
+	var c hCase
+	c.Grep = rapid.IntRange(0, 2).Draw(t, "grep") == 0
+	c.Shape = rapid.SampledFrom([]string{"glob", "glob", "list", "list", "repeat"}).Draw(t, "shape")
+	nf := rapid.IntRange(1, 6).Draw(t, "nfiles")
+	if c.Shape == "repeat" {
+		nf = 1
+	}
+	for i := 0; i < nf; i++ {
+		c.Files = append(c.Files, fileSpec{Lines: rapid.SampledFrom(hLineCounts).Draw(t, "lines"), LenK: rapid.IntRange(0, 1).Draw(t, "lenk")})
+	}
+	c.Cats = rapid.SampledFrom([]int{1, 2, 2, 5}).Draw(t, "cats")
+	c.ReadBuf = rapid.SampledFrom([]int{16, 100, 1000, 32768}).Draw(t, "readbuf")
+	c.GapUs = rapid.SampledFrom([]int{0, 0, 50, 2000, 30000}).Draw(t, "gap")
+	np := rapid.IntRange(0, 3).Draw(t, "npauses")
+	for i := 0; i < np; i++ {
+		p := hPause{Ms: rapid.SampledFrom([]int{20, 60, 120, 200, 400, 1100}).Draw(t, "ms")}
+		if rapid.Bool().Draw(t, "near-end") {
+			p.AtMsg = -rapid.SampledFrom([]int{0, 1, 2, 50, 99, 100, 101, 150, 200, 201}).Draw(t, "before-end")
+		} else {
+			p.AtMsg = rapid.IntRange(0, 600).Draw(t, "at")
+		}
+		c.Pauses = append(c.Pauses, p)
+	}
+	c.Clean = rapid.IntRange(0, 3).Draw(t, "clean") > 0
+	ns := rapid.IntRange(0, 2).Draw(t, "nsched")
+	for i := 0; i < ns; i++ {
+		p := rapid.SampledFrom([]string{"srv.shutdown.afterflush=sleep:%dms", "srv.shutdown.begin=sleep:%dms", "srv.cmd.finished=sleep:%dms", "srv.cmd.received=sleep:%dms", "read.limiter.acquired=sleep:%dms", "read.limiter.released=sleep:%dms", "srv.read.line=sleepn:%d:40ms"}).Draw(t, "point")
+		if strings.Contains(p, "sleepn") {
+			p = fmt.Sprintf(p, rapid.SampledFrom([]int{1, 2, 100, 101, 199, 200, 201}).Draw(t, "nth"))
+		} else {
+			p = fmt.Sprintf(p, rapid.SampledFrom([]int{1, 10, 60, 150}).Draw(t, "ms"))
+		}
+		c.Sched = append(c.Sched, p)
+	}
+	return c
+}
+
+func evalH(c hCase) lib.Outcome {
+	var o lib.Outcome
+	id := atomic.AddInt64(&caseN, 1)
+	cdir := filepath.Join(root, fmt.Sprintf("h%d-%d", os.Getpid(), id))
+	os.MkdirAll(cdir, 0o755)
+	defer os.RemoveAll(cdir)
+	ec := e2eCase{Grep: c.Grep, Files: c.Files, Shape: c.Shape}
+	var paths []string
+	for f, spec := range c.Files {
+		var b bytes.Buffer
+		for n := 1; n <= spec.Lines; n++ {
+			b.Write(lineOf(f, spec, n))
+			b.WriteByte('\n')
+		}
+		p := filepath.Join(cdir, fmt.Sprintf("f%02d.log", f))
+		os.WriteFile(p, b.Bytes(), 0o644)
+		paths = append(paths, p)
+	}
+	var targets []string
+	reps := 1
+	switch c.Shape {
+	case "glob":
+		targets = []string{filepath.Join(cdir, "*.log")}
+	case "list":
+		targets = paths
+	default:
+		targets = []string{paths[0], paths[0]}
+		reps = 2
+	}
+	ncmds := len(targets)
+	expectedMsgs := 0
+	for _, spec := range c.Files {
+		expectedMsgs += len(selected(ec, spec)) * reps
+	}
+	res := runHandlerSession(c, targets, ncmds, expectedMsgs)
+
+	o.Classes = []string{"shape=" + c.Shape, fmt.Sprintf("cats=%d", c.Cats), fmt.Sprintf("readbuf=%d", c.ReadBuf)}
+	if ncmds > 1 && c.Clean {
+		o.Classes = append(o.Classes, "multi-command-clean-space")
+	} else if ncmds > 1 {
+		o.Classes = append(o.Classes, "multi-command-free-space")
+	}
+	if len(c.Files) > c.Cats {
+		o.Classes = append(o.Classes, "files>limit")
+	}
+	if len(c.Pauses) > 0 {
+		o.Classes = append(o.Classes, "paced-consumer")
+	}
+	if len(c.Sched) > 0 {
+		o.Classes = append(o.Classes, "hook-delays")
+	}
+	o.NonTrivial = ncmds >= 2 || len(c.Files) > c.Cats || (len(c.Pauses) > 0 && expectedMsgs > 200)
+
+	known := ""
+	if !(c.Clean && ncmds > 1) {
+		known = traceInfo{names: res.trace}.earlyShutdown(ncmds)
+	}
+	fail := func(msg string, exp, obs interface{}) lib.Outcome {
+		o.Fail, o.Expected, o.Observed = msg, exp, obs
+		o.Trace = map[string]interface{}{"known_signature": known, "messages_before_syn": len(res.msgs), "server_messages": res.serverMsgs, "after_syn": res.afterSyn}
+		if known != "" {
+			o.KnownKey = "session-ends-before-all-commands-arrived"
+		}
+		return o
+	}
+	if res.inconc != "" {
+		o.Inconclusive = res.inconc
+		return o
+	}
+	if !res.sawSyn {
+		return fail("the session did not offer the close handshake ('.syn close connection') within the deadline after all input was sent", nil, fmt.Sprintf("%d messages received", len(res.msgs)))
+	}
+	seen := map[int][]int{}
+	for i, m := range res.msgs {
+		mm := tagRe.FindSubmatch(m)
+		if mm == nil {
+			return fail(fmt.Sprintf("message %d is neither a line of a requested file nor a server record (fragment?)", i+1), nil, tailS(string(m), 200))
+		}
+		f, _ := strconv.Atoi(string(mm[1]))
+		n, _ := strconv.Atoi(string(mm[2]))
+		if f >= len(c.Files) || n < 1 || n > c.Files[f].Lines || !bytes.Equal(m, append(lineOf(f, c.Files[f], n), '\n')) {
+			return fail(fmt.Sprintf("message %d is not a complete line of a requested file", i+1), nil, tailS(string(m), 200))
+		}
+		seen[f] = append(seen[f], n)
+	}
+	for f, spec := range c.Files {
+		want := selected(ec, spec)
+		if reps == 1 {
+			if msg := sameSeq(want, seen[f]); msg != "" {
+				return fail(fmt.Sprintf("file %d (%d lines): %s; %d of %d selected lines arrived before the close handshake (%d more after it)", f, spec.Lines, msg, len(seen[f]), len(want), res.afterSyn), nil, nil)
+			}
+		} else if msg := twoCopies(want, seen[f]); msg != "" {
+			return fail(fmt.Sprintf("file %d requested twice: %s (%d more messages after the close handshake)", f, msg, res.afterSyn), nil, nil)
+		}
+	}
+	if !res.ended {
+		return fail("the session did not end within 10 s after the close handshake was acknowledged", nil, nil)
+	}
+	return o
+}
+
+type hResult struct {
+	msgs       [][]byte
+	serverMsgs []string
+	sawSyn     bool
+	afterSyn   int
+	ended      bool
+	trace      []string
+	inconc     string
+}
+
+func TestC02Handler(t *testing.T) {
+	lib.Run(t, lib.Spec[hCase]{Prop: "C02", Check: "handler",
+		Rule: "real server handler in-process, the harness writes the commands (one glob / one per file / the same file twice, with a generated gap between commands) and reads the output with 16 B..32 KiB buffers, pausing 20 ms..1.1 s before a generated message number or 0..201 messages before the expected end; 1..6 files with line counts around the queue capacities {0,1,2,50,99,100,101,150,199,200,201,202,250,400}; MaxConcurrentCats in {1,2,5}; 0-2 hook-placed delays (shutdown handshake, command accounting, limiter, the n-th line taken from the queue). The harness behaves like the client: it stops taking lines when '.syn close connection' arrives and acknowledges it. Oracle: the lines that arrived before the close handshake are exactly the selected lines per file, once, in order; the handshake is offered and the session ends within 10 s of the acknowledgement. Clean / free schedule space as in the e2e layer. Non-trivial = >=2 commands, more files than limiter slots, or a paced consumer with > 200 selected lines",
+		Gen: genH, Eval: evalH})
+}
